@@ -811,7 +811,11 @@ def translate(repo):
         add('pose_' + nm, 15, _scalars(r, 3, nm), it.current)
     for nm in ('rotate_translate_pose', 'inv_rotate_translate_pose'):
         it.current = (P, nm)
-        o = it.call_function(P, method(P, nm, ('plain',)), [pose_obj(0), pose_obj(12)], {}, None)
+        p_self, p_arg = pose_obj(0), pose_obj(12)
+        o = it.call_function(P, method(P, nm, ('plain',)), [p_self, p_arg], {}, None)
+        if o is p_self or o is p_arg:
+            # freshness contract (C15_compose_fresh): the result is built with the constructor, never an operand
+            raise TranslateError('Pose.%s returns one of its operands instead of a new Pose' % nm)
         add('pose_' + nm, 24, pose_fields(o, nm), it.current)
     _require_ast_equal(method(P, 'from_rot_vec', ('classmethod',)),
                        'def f():\n return Pose(Rotation.from_rotvec(R_vec).as_matrix(), t_vec)', 'Pose.from_rot_vec')
